@@ -104,6 +104,16 @@ def roundtrip_cmds(chk, backends, thorough, mode, emax_fn=None, xor_tables=None)
                 for j, (k, m) in enumerate([(4, 2), (10, 4), (15, 6), (8, 8)]):
                     i += 1
                     cmds.append(sweep_cmd(be, k, m, m, 2, (1 << 20) - 3 + j * 5, _seed_of(chk, i), 0, m, 4, mode))
+    # an instance accepted with another word size than the backend's own behaves the same (or is refused): C01/C03 are
+    # stated for every configuration the library accepts
+    OTHER_W = {BE_RS: [8, 32, 64, 4], BE_XOR: [8, 16, 64, 4]}
+    for be in backends:
+        shp = (5, 5, 3) if be == BE_XOR else (4, 2, 2)
+        for wi, w_ in enumerate(OTHER_W.get(be, [])):
+            for L in (1, 37, 1000 + wi):
+                i += 1
+                cmds.append("sweep_dec %d %d %d %d %d %d %d %d %d %d %d %d" % (be, shp[0], shp[1], shp[2], w_, 1 + wi % 2, L, _seed_of(chk, i), 0,
+                                                                               tolerance(be, shp[1], shp[2]), 12, mode))
     if BE_XOR in backends and not thorough:
         for j, ((k, m, hd), L) in enumerate([((5, 5, 3), 4099), ((10, 6, 4), 65541), ((6, 6, 4), (1 << 20) - 1)]):
             i += 1
@@ -396,6 +406,13 @@ def c05():
         picks = pays if thorough else [pays[(ti + 1) % NP], pays[(ti * 5 + 9) % NP]]
         for pi, p in enumerate(picks):
             cmds_n.append(sweep_cmd(BE_XOR, k, m, hd, 1, k * p, _seed_of(chk, 500 + ti * 7 + pi), 0, hd - 1, 10**9, 1 | 8))
+    # every supported shape works whatever word size the caller passes (accepted -> exact; or refused)
+    for ti, (k, m, hd) in enumerate(XOR_TABLES):
+        w_ = [4, 8, 16, 64, 1, 7][ti % 6]
+        c_ = "sweep_dec %d %d %d %d %d %d %d %d %d %d %d %d" % (BE_XOR, k, m, hd, w_, 1 + ti % 2, k * pays[ti % NP] + 1, _seed_of(chk, 950 + ti), 0, hd - 1, 25, 1 | 8)
+        cmds_b.append(c_)
+        if ti % 3 == 0:
+            cmds_n.append(c_)
     # payloads of 64 KiB and more per fragment, both flavours (sampled erasure sets)
     for j, (k, m, hd) in enumerate([(5, 5, 3), (10, 6, 4), (6, 6, 4), (12, 6, 3)] if thorough else [(5, 5, 3), (10, 6, 4)]):
         big = sweep_cmd(BE_XOR, k, m, hd, 1 + j % 2, k * (65536 + 4 * (j + 1)), _seed_of(chk, 900 + j), 1, hd - 1, 6, 1 | 8)
